@@ -317,7 +317,7 @@ pub fn judge(case: &Case, rep: &Report, stats: &mut Stats) -> Result<(), Fail> {
         // concurrent callers for one existing path all report success
         if let Some(bad) = rep.outs.iter().find(|o| !o.is_ok()) {
             // persistent EAGAIN is environmental
-            if !matches!(bad, Out::Err { errno: Some(e), .. } if *e == libc::EAGAIN) && !matches!(bad, Out::Err { kind, .. } if kind == "safety") {
+            if !matches!(bad, Out::Err { errno: Some(e), .. } if *e == libc::EAGAIN) {
                 let through = if !rep.parent_resolves_after { ":path-runs-through-the-entry-it-names" } else { "" };
                 return Err(mk(format!("concurrent-failure:{}{}", bad.class(), through), "a concurrent remove_all of the same path failed".into()));
             }
